@@ -1144,16 +1144,54 @@ func main() {
 	for _, r := range initRoots {
 		isInitRoot[r] = true
 	}
+	// For every function that itself writes a package-level variable: can it run after package
+	// initialisation?  Yes if it, or a chain of its callers, ends in a function that is callable
+	// from outside the call graph (exported, a method, used as a value).  Report the writer with
+	// one shortest such chain.
+	callers := map[int][]int{}
+	for g, fi := range a.fns {
+		for _, s := range fi.sites {
+			if s.kind == kCall {
+				callers[fnID[s.tgt]] = append(callers[fnID[s.tgt]], g)
+			}
+		}
+	}
 	for _, f := range setList(initOnly) {
-		if !isInitRoot[f] && a.fns[f].escapes {
-			why := "calls a function that does"
-			for _, s := range a.fns[f].sites {
-				if s.kind == kWrite && a.globals[base(s.tgt)] {
-					why = "writes " + s.tgt
+		var written []string
+		for _, s := range a.fns[f].sites {
+			if s.kind == kWrite && a.globals[base(s.tgt)] {
+				written = append(written, s.tgt)
+			}
+		}
+		if len(written) == 0 || isInitRoot[f] {
+			continue
+		}
+		prev := map[int]int{f: -1}
+		queue := []int{f}
+		end := -1
+		for len(queue) > 0 && end < 0 {
+			g := queue[0]
+			queue = queue[1:]
+			if !isInitRoot[g] && a.fns[g].escapes {
+				end = g
+				break
+			}
+			for _, c := range callers[g] {
+				if _, seen := prev[c]; !seen && !isInitRoot[c] {
+					prev[c] = g
+					queue = append(queue, c)
 				}
 			}
-			diags = append(diags, fmt.Sprintf("GlobalsInitOnly: %s %s but can run outside package initialisation (exported, a method, or used as a value)", a.fns[f].name, why))
 		}
+		if end < 0 {
+			continue
+		}
+		var chain []string
+		for g := end; g != -1; g = prev[g] {
+			chain = append(chain, a.fns[g].name)
+		}
+		diags = append(diags, fmt.Sprintf("GlobalsInitOnly: %s writes the package-level %s and can run after package initialisation: %s",
+			a.fns[f].name, strings.Join(written, ", "), strings.Join(chain, " -> ")))
 	}
 	for _, r := range roots {
 		if initOnly[r] {
@@ -1266,6 +1304,29 @@ func main() {
 		return
 	}
 	if err := os.WriteFile(*out, []byte(sb.String()), 0o644); err != nil {
+		fatal("%v", err)
+	}
+	// Side file for the reader of a broken obligation (checks/C19.json: obligation_notes): the
+	// kernel only says that a predicate is not `true`; this names the offending sites.  Written
+	// on every run, so it always describes the table just generated.  Not part of the proof.
+	notesPath := strings.TrimSuffix(strings.TrimSuffix(*out, ".new"), ".lean") + ".notes.txt"
+	var nb strings.Builder
+	fmt.Fprintf(&nb, "Notes of harness/cmd/extract-access for %s (informational; the verdict is the kernel's evaluation of\n"+
+		"ReaderDiscipline / GlobalsInitOnly / GuardedLocations in Goyang/Props/C19.lean).\n\n", strings.TrimSuffix(*out, ".new"))
+	if len(diags) == 0 {
+		nb.WriteString("No offending site: the translator's own evaluation of the three predicates on this table is true.\n")
+	} else {
+		fmt.Fprintf(&nb, "%d offending site(s); each makes the named predicate false on this table:\n", len(diags))
+		for _, d := range diags {
+			fmt.Fprintf(&nb, "  - %s\n", d)
+		}
+	}
+	for i, al := range cfg.Allow {
+		if matched[i] == 0 {
+			fmt.Fprintf(&nb, "note: allow-list entry %s matches no site of the current source\n", al.ID)
+		}
+	}
+	if err := os.WriteFile(notesPath, []byte(nb.String()), 0o644); err != nil {
 		fatal("%v", err)
 	}
 	for i, al := range cfg.Allow {
